@@ -483,7 +483,12 @@ func runIter(f []string) string {
 // startupRacers long-lived goroutines, released together by a spinning generation barrier, make
 // their first two Next calls on it; the 2*racers values must be exactly 0..2*racers-1.
 // Arenas run in parallel (as many as the cores allow).
+// The number of rounds is a detector's effort, not part of the property: on a machine that is busy
+// with other work a round can take milliseconds (every racer must get a time slice), so after
+// startupMinRounds rounds the loop also stops when startupBudget of wall time is used up.
 const startupRacers = 8
+const startupMinRounds = 300
+const startupBudget = 2500 * time.Millisecond
 
 func startupRounds(rounds int) bool {
 	if rounds <= 0 {
@@ -532,7 +537,11 @@ func startupRounds(rounds int) bool {
 				}(t)
 			}
 			seen := make([]bool, 2*startupRacers)
+			begin := time.Now()
 			for r := 1; r <= rounds && atomic.LoadInt64(&bad) == 0; r++ {
+				if r > startupMinRounds && r%64 == 0 && time.Since(begin) > startupBudget {
+					break
+				}
 				cur.Store(mp.NewNextIterator(1))
 				done.Store(0)
 				gen.Store(int64(r))
